@@ -408,7 +408,7 @@ func (e *MetaExecutor) CreateIterator(nodeID uint64, shardIDs []uint64, ctx cont
 		if _, err := DecodeTLVT(conn, &resp, e.timeout); err != nil {
 			return err
 		} else if resp.Err != nil {
-			return err
+			return resp.Err
 		}
 
 		return nil
